@@ -953,3 +953,30 @@ def replay_sorting(viol):
     prog = (":- use_module(library(lists)).\n:- use_module(library(between)).\nshow(X) :- write(X), nl.\n"
             "msort_check([]).\nmsort_check([_]).\nmsort_check([A,B|T]) :- A < B, msort_check([B|T]).\n")
     return run_cases(prog, cases, {"model": viol}, "C14", "sorting", batch=True)
+
+
+# ---------------------------------------------------------------- C23 (arg/3)
+def replay_arg(viol):
+    cases = []
+    prog = ("show(X) :- write(X), nl.\n"
+            "r(G, T, R) :- catch(( G -> R = yes(T) ; R = no ), error(E, _), R = err(E)).\n")
+    term = "f(a,b,c)"
+    for n, want in ((0, "no"), (1, "yes(a)"), (2, "yes(b)"), (3, "yes(c)"), (4, "no"), (-1, "err(domain_error(not_less_than_zero,-1))")):
+        cases.append(("r(arg(%d, %s, T), T, R), show(R)" % (n, term), want))
+        cases.append(("N is 2^60-2^60+(%d), r(arg(N, %s, T), T, R), show(R)" % (n, term), want))
+    for n, want in ((0, "no"), (1, "yes(x)"), (2, "yes([y])"), (3, "no")):
+        cases.append(("L = [x,y], r(arg(%d, L, T), T, R), show(R)" % n, want))
+        cases.append(("N is 2^60-2^60+(%d), L = [x,y], r(arg(N, L, T), T, R), show(R)" % n, want))
+    cases += [("r(arg(_, f(a), T), T, R), show(R)", "err(instantiation_error)"),
+              ("r(arg(1, _, T), T, R), show(R)", "err(instantiation_error)"),
+              ("r(arg(1, foo, T), T, R), show(R)", "err(type_error(compound,foo))"),
+              ("r(arg(1, 3, T), T, R), show(R)", "err(type_error(compound,3))"),
+              ("r(arg(a, f(a), T), T, R), show(R)", "err(type_error(integer,a))"),
+              ("r(arg(1.0, f(a), T), T, R), show(R)", "err(type_error(integer,1.0))"),
+              ("N is 2^70, r(arg(N, f(a), T), T, R), show(R)", "no"),
+              ("r(arg(2, f(a,b), b), x, R), show(R)", "yes(x)"),
+              ("r(arg(2, f(a,b), c), x, R), show(R)", "no"),
+              ("functor(T0, g, 255), r((arg(255, T0, last), arg(255, T0, V)), V, R), show(R)", "yes(last)"),
+              ("r(arg(1, \"ab\", T), T, R), show(R)", "yes(a)"),
+              ("r(arg(2, \"ab\", T), T, R), show(R)", "yes([b])")]
+    return run_cases(prog, cases, {"model": viol}, "C23", "arg", batch=True)
